@@ -400,11 +400,106 @@ def key_for(case, i, what):
     return f"unexplained:{what} {classify(case, i)}"
 
 
+def reguard_case(rng, res):
+    """two guards in one program with a helper call in between that
+    invalidates packet pointers (bpf_xdp_adjust_tail by 0 bytes): a static
+    minimum size, a packet write, the call, then a dynamic guard with more
+    accesses - as the dispatcher re-checks the size after its tail call.
+    Kernel only (the reference machine has no packet-resizing helpers)."""
+    from ebpfcat.ebpf import FuncId
+    from ebpfcat.xdp import PacketVar
+    G1 = rng.randint(15, 40)     # test runs need >= 14 bytes
+    G2 = G1 + rng.randint(1, 30)
+    style = rng.choice([">", ">=", "<else"])
+    f1 = rng.choice(["B", "H", ">H", "<H"])
+    f2 = rng.choice(["B", "H", "I", ">I", "<I", ">H", "Q", ">Q"])
+    s1, s2 = struct.calcsize(f1[-1]), struct.calcsize(f2[-1])
+    p1 = rng.randint(0, G1 - s1)
+    p2 = rng.randint(0, G2 - s2)
+    v1 = rng.getrandbits(8 * s1)
+    v2 = rng.getrandbits(8 * s2)
+    desc = dict(reguard=True, G1=G1, G2=G2, style=style, f1=f1, f2=f2,
+                p1=p1, p2=p2)
+
+    def program(self):
+        e = self
+        e.r6 = e.r1
+        e.a = v1
+        e.r2 = 0
+        e.call(FuncId.xdp_adjust_tail)
+        e.r1 = e.r6
+
+        def body(p):
+            e.b = v2
+            p.pB[G2] = 0x55
+            e.exit(XDPExitCode.TX)
+        if style == ">":
+            with e.packetSize > G2 as p:
+                body(p)
+        elif style == ">=":
+            with e.packetSize >= G2 + 1 as p:
+                body(p)
+        else:
+            with e.packetSize < G2 + 1 as p:
+                pass
+            with p.Else:
+                body(p)
+    ns = dict(license="GPL", minimumPacketSize=G1, a=PacketVar(p1, f1),
+              b=PacketVar(p2, f2), program=program)
+    with kern.session() as sess:
+        res.count("reguard_programs")
+        try:
+            e = type("VfReguard", (XDP,), ns)()
+            ld = prog.Loaded(e, sess)
+        except AssembleError:
+            res.count("reguard_assemble_error")
+            return
+        try:
+            ld.load()
+        except OSError as ex:
+            res.violation(
+                "unexplained:reguard-rejected",
+                "a program with a second packet-size guard after a helper "
+                "call that invalidates packet pointers is rejected by the "
+                "verifier, so its guarded bodies run on no packet: "
+                + str(ex)[-160:].replace("\n", " | "), case=desc)
+            return
+
+        def order(f):
+            return "big" if f[0] in ">!" else "little"
+        for n in sorted({G1 - 1, G1, G1 + 1, G2 - 1, G2, G2 + 1, G2 + 2,
+                         G2 + 9} | {rng.randint(14, G2 + 20)}):
+            if n < 14:
+                continue
+            pkt = bytes(rng.getrandbits(8) for _ in range(n))
+            ret, out, _ = ld.run_k(pkt)
+            want = bytearray(pkt)
+            wret = 2          # XDP_PASS, the default
+            if n > G1:
+                want[p1:p1 + s1] = v1.to_bytes(s1, order(f1))
+            if n > G2:
+                want[p2:p2 + s2] = v2.to_bytes(s2, order(f2))
+                want[G2] = 0x55
+                wret = 3
+            res.case([desc, n], nontrivial=n > G1)
+            res.count("reguard_runs")
+            if (ret, out) != (wret, bytes(want)):
+                res.violation(
+                    "unexplained:reguard",
+                    f"packet of {n} bytes: returned {ret}, expected {wret}; "
+                    f"bytes differ at "
+                    f"{[i for i in range(n) if out[i:i+1] != want[i:i+1]][:8]}",
+                    case=dict(desc, length=n))
+                return
+
+
 def run_shard(params):
     res = Result()
     rng = random.Random(params["seed"] * 100057 + params["shard"])
     for i in range(params["n"]):
         check_case(gen_case(rng), res, use_v=(i % 2 == 0))
+        if i % 4 == 0:
+            reguard_case(rng, res)
     return res
 
 
@@ -425,6 +520,8 @@ def finalize(res, tier, seed):
     res.info["strata_never_compared"] = missing
     if missing:
         res.inconc(f"strata never compared: {missing}")
+    if not c.get("reguard_runs"):
+        res.inconc("second guard after a helper call: never run")
     if not c.get("skipped") or not c.get("ran"):
         res.inconc("guard never skipped / never ran")
 
